@@ -429,6 +429,9 @@ type Table struct {
 // errIdx is the index of the result that decides accept/reject (error or bool); for
 // error results: nil => accept, provably non-nil => reject, a call result => call:<callee>.
 func ExtractTable(fn *ssa.Function, resIdx int) (*Table, error) {
+	if resIdx < 0 {
+		return nil, fmt.Errorf("%s has no result to tabulate", FuncName(fn))
+	}
 	conds, edgeConds, ok := PathCondsE(fn)
 	if !ok {
 		return nil, fmt.Errorf("path condition of %s exceeds %d terms", FuncName(fn), maxTerms)
